@@ -1,6 +1,7 @@
 package main
 
 import (
+	"slices"
 	"fmt"
 	"sort"
 	"strings"
@@ -157,6 +158,34 @@ func ruleC04(c *Ctx, r *Report) {
 								isZone = false
 							}
 						}
+					}
+					if isConst && okRecv && slices.Contains(commandWrappers, key) {
+						// cmd.Set("explain", <the document read from cmd["explain"]>) after it was
+						// walked in place: stored back as itself
+						if rv, kv, okG := getKeyValueOf(peel(val)); okG && peel(rv) == peel(recv) {
+							if k2, isC := constString(kv); isC && k2 == key {
+								r.OK("C04-R1", construct, c.InstrPos(i), "the wrapped command cmd."+key+" is re-stored as the document read from the same key: position and the other members are kept")
+								return
+							}
+						}
+					}
+					if _, isFNV := commandFieldNameValues[key]; isConst && okRecv && isFNV {
+						// cmd.key of a distinct command: a field name, renamed under the field-name mode only
+						okMode := false
+						for _, ft := range allFacts(b) {
+							if peel(ft.Cond) == ssa.Value(cmdFn.Params[1]) && ft.Pol {
+								okMode = true
+							}
+						}
+						inner := peel(val)
+						okVal := false
+						if hc, isCall := inner.(*ssa.Call); isCall && hc.Call.StaticCallee() == hn {
+							_, okVal = commandFieldNameValue(p, cmdFn, hc.Call.Args[0], b)
+						}
+						r.Check(okMode && okVal, "C04-R1", construct, c.InstrPos(i),
+							"cmd."+key+" (a field name by the command's grammar) is replaced by its pseudonym under the field-name mode only",
+							fmt.Sprintf("cmd.%s is rewritten outside the field-name mode or with something other than the pseudonym of the name it held (underMode=%v pseudonymOfItself=%v)", key, okMode, okVal))
+						return
 					}
 					r.Check(isConst && isZone && okRecv, "C04-R1", construct, c.InstrPos(i),
 						"the command walker rewrites a query-bearing key of the command document",
